@@ -43,6 +43,13 @@ class ArffAttrReader(Filter[Iterable[str], Iterable[Tuple[str,Callable]]]):
         def __missing__(self, key):
             raise CobaException(f"We were unable to find '{key}' in {sorted(self.keys())}.")
 
+    @staticmethod
+    def _closed(item: str, q: str) -> bool:
+        #a quoted item is closed by a quote that is preceded by an even number of backslashes
+        if len(item) < 2 or item[-1] != q: return False
+        body = item[:-1]
+        return (len(body)-len(body.rstrip("\\"))) % 2 == 0
+
     def __init__(self, is_dense:bool) -> None:
         self._is_dense = is_dense
         self._r_space  = re.compile("(\s+)")
@@ -82,10 +89,10 @@ class ArffAttrReader(Filter[Iterable[str], Iterable[Tuple[str,Callable]]]):
 
                 if item[0] in quotes:
                     q  = item[0]
-                    while item.rstrip()[-1] != q or item.rstrip()[-2]=="\\":
+                    while not ArffAttrReader._closed(item.rstrip(),q):
                         item += next(items)
 
-                    item = item.strip().rstrip()[1:-1].replace("\\",'')
+                    item = re.sub(r"\\(.)", r"\1", item.strip()[1:-1])
                 else:
                     item = item.strip()
 
@@ -260,11 +267,12 @@ class ArffLineReader(Filter[str, Sequence[str]]):
 
             if item[0] in self._quotes:
                 possible_quotechar = item[0]
-                while item.rstrip()[-1] != possible_quotechar or item.rstrip()[-2] == "\\":
-                    item += "," + d_line.popleft()
+                while not ArffAttrReader._closed(item.rstrip(),possible_quotechar):
+                    if not d_line: raise CobaException(f"We were unable to parse a line in a way that matched the expected attributes.")
+                    item += self._fallback_delim + d_line.popleft()
                 item = item.strip()[1:-1]
 
-            parsed.append(item.replace('\\',''))
+            parsed.append(re.sub(r"\\(.)", r"\1", item))
 
         if len(parsed) != self._n_columns:
             raise CobaException(f"We were unable to parse a line in a way that matched the expected attributes.")
